@@ -8,7 +8,7 @@ for the injected 'connection lost' error (a stub, listed as such in the evidence
 
 # shapes that commit exactly once, at the end: "all or nothing" is well defined for them
 ATOMIC_SHAPES = ['opt_write', 'immediate', 'serializable', 'nonopt', 'strict', 'decorator', 'nested', 'raw',
-                 'for_update', 'bulk_delete', 'collection', 'delete_cascade']
+                 'for_update', 'bulk_delete', 'collection', 'delete_cascade', 'write_then_read']
 
 
 def run(pool, col, tier, seed):
